@@ -42,6 +42,12 @@ CHECKS = {
         text='Theorem C07_matrix: for every cycle list the code-shaped matrix model has sorted distinct keys, is square, has entry (i,j) equal to the total count from key i to key j, sums to the total count and collapses by |key_j-key_i| to the aggregated table; hence for all seven functions on every digitised history. Empty count gives the empty matrix. The seven functions are tied to the composed models (digitise, count, encode) by exact correspondence; the predicate also runs on the implementation output against the counter\'s own outputs on the digitised history.',
         note='Trusted: Lean kernel + standard axioms; hand-written model FF.toMatrix (np.unique modelled as sorted distinct list, key strings parsed back to grid values); counter and digitisation models as in C02/C19; dyadic-grid arithmetic.',
         ref='§5 C07'),
+    'C03': dict(
+        engine='list',
+        technique='Lean 4 proof (filter invariance under the inductive refinement relation; commutation of every counter with range-similarities; time reversal of the reversal sequence) + metamorphic evaluation on the implementation',
+        text='Theorems about the code-shaped models, for all histories: inserting samples inside the interval of consecutive samples or repeating samples leaves the filter output and hence all seven cycle counts, the level-crossing count (incl. its default level grid) and the peak count unchanged; adding a constant leaves all range tables unchanged and scaling by c>0 scales every range by c (all seven counters; events of level crossing / peak counting move with the load); negation leaves simple-range, rainflow, range-pair, four-point unchanged; time reversal leaves simple-range unchanged. Time reversal for rainflow / four-point / Rychlik is NOT proved (C03.ReverseStatement is a def): it is tested on all small histories plus random ones. The metamorphic relations are evaluated on the implementation for all nine functions.',
+        note='Trusted: Lean kernel + standard axioms; models tied to /repo/src by the exact correspondence run in checks C02 and C05; integer scale factors and offsets on the dyadic grid stand for real c>0 and offsets (exact arithmetic).',
+        ref='§5 C03'),
 }
 
 NOT_YET = {}
